@@ -88,7 +88,19 @@ pub fn minus_one() -> BlsScalar {
 
 /// A scalar from a pool of edge values or random.
 pub fn pool_scalar<R: RngCore>(rng: &mut R) -> BlsScalar {
-    match rng.next_u32() % 12 {
+    match rng.next_u32() % 13 {
+        12 => {
+            // a "field fraction" k/m: small after multiplication by m, huge as
+            // an integer ((r + k)/2, k/3, k/4, k/2^j ...)
+            let k = BlsScalar::from(1 + rng.next_u64() % 64);
+            let m = match rng.next_u32() % 4 {
+                0 => BlsScalar::from(2u64),
+                1 => BlsScalar::from(3u64),
+                2 => BlsScalar::from(4u64),
+                _ => pow2(1 + rng.next_u32() % 250),
+            };
+            k * m.invert().unwrap()
+        }
         0 => BlsScalar::zero(),
         1 => BlsScalar::one(),
         2 => minus_one(),
